@@ -176,6 +176,8 @@ func (mc *XMCache) newXModelCacheIterator(bucket string, startKey []byte, endKey
 	// 意味着如果一个key在三个迭代器里面同时出现，优先级高的会覆盖优先级底的
 	multiIter := newMultiIterator(inputIter, backendIter)
 	multiIter = newMultiIterator(outputIter, multiIter)
+	// a key deleted in this execution shadows the lower levels and is itself not yielded
+	multiIter = newStripDelIterator(multiIter)
 	return newContractIterator(multiIter), nil
 }
 
